@@ -252,6 +252,16 @@ exp("get_tags", "vcs.get_tags", V, "harmless", "negated scope test with exchange
 exp("get_tags", "vcs.get_tags", V, "harmless", "result through a local, single return",
     "        if branch_scope:\n            return vcs_api.ls_tags_branch()\n        else:\n            return vcs_api.ls_tags()",
     "        if branch_scope:\n            tags = vcs_api.ls_tags_branch()\n        else:\n            tags = vcs_api.ls_tags()\n        return tags")
+exp("get_tags", "VCSAPI.ls_tags_branch", V, "harmless", "accumulation loop for the comprehension (harmless2.diff)",
+    "        logger.debug(f\"ls_tags_branch output {ls_tag_lines}\")\n"
+    "        return [line.strip().split(\" \", 1)[0] for line in ls_tag_lines]",
+    "        tags = []\n        for line in ls_tag_lines:\n            first_word = line.strip().split(\" \", 1)[0]\n"
+    "            tags.append(first_word)\n        return tags")
+exp("get_tags", "VCSAPI.ls_tags", V, "break", "the tag name is cut at the first `.` instead of the first blank",
+    "        logger.debug(f\"ls_tags output {ls_tag_lines}\")\n"
+    "        return [line.strip().split(\" \", 1)[0] for line in ls_tag_lines]",
+    "        logger.debug(f\"ls_tags output {ls_tag_lines}\")\n"
+    "        return [line.strip().split(\".\", 1)[0] for line in ls_tag_lines]")
 exp("get_tags", "vcs.get_vcs_api", V, "break", "`if vcs_api.is_usable` negated",
     "        if vcs_api.is_usable:\n            return vcs_api", "        if not vcs_api.is_usable:\n            return vcs_api")
 exp("get_tags", "vcs.get_vcs_api", V, "break", "ValueError instead of OSError (not caught by the callers)",
@@ -408,6 +418,9 @@ SEEDED = [
     ("C12-annotated-tag-falls-back", "break"), ("C12-backslash-path-normalised", "break"),
     ("_harmless-refactor", "harmless"),
 ]
+# independent behaviour-preserving refactorings of ~45 functions each (written outside /verif); used when the files exist
+EXTERNAL_PATCHES = [("/tmp/proofwork/harmless1.diff", "harmless"), ("/tmp/proofwork/harmless2.diff", "harmless"),
+                    ("/tmp/proofwork/harmless3.diff", "harmless")]
 
 
 def main():
@@ -420,6 +433,10 @@ def main():
         for name, kind in SEEDED:
             todo.append(dict(group="seeded", func="seeded/" + name, file=None, kind=kind, label="patch.diff of the seeded change",
                              patch=os.path.join(VERIF, "seeded", name, "patch.diff"), edits=[]))
+        for path, kind in EXTERNAL_PATCHES:
+            if os.path.exists(path):
+                todo.append(dict(group="seeded", func=os.path.basename(path), file=None, kind=kind,
+                                 label="whole refactoring patch", patch=path, edits=[]))
     for e in todo:
         if only and e["group"] not in only and e["func"] not in only:
             continue
